@@ -460,3 +460,29 @@ def bind_method_call(P, cls, call):
         if kw.arg:
             out[kw.arg] = kw.value
     return out
+
+
+def list_builder(fn):
+    """the list a small function builds and returns, whichever way it is spelled: `return [elt for t in it if c]` or
+    `xs = []; for t in it: [if c:] xs.append(elt); return xs`.  -> dict(elt, target, iter, ifs) or None"""
+    body = [x for x in fn.body if not (isinstance(x, ast.Expr) and isinstance(x.value, ast.Constant))]
+    if len(body) == 1 and isinstance(body[0], ast.Return) and isinstance(body[0].value, ast.ListComp) and len(body[0].value.generators) == 1:
+        lc = body[0].value
+        g_ = lc.generators[0]
+        return {'elt': lc.elt, 'target': g_.target, 'iter': g_.iter, 'ifs': list(g_.ifs)}
+    if len(body) == 2 and isinstance(body[0], ast.Assign) and isinstance(body[0].value, ast.ListComp) and isinstance(body[1], ast.Return) \
+            and isinstance(body[1].value, ast.Name) and [ast.unparse(t) for t in body[0].targets] == [body[1].value.id] and len(body[0].value.generators) == 1:
+        lc = body[0].value
+        g_ = lc.generators[0]
+        return {'elt': lc.elt, 'target': g_.target, 'iter': g_.iter, 'ifs': list(g_.ifs)}
+    if len(body) == 3 and isinstance(body[0], ast.Assign) and isinstance(body[0].value, ast.List) and not body[0].value.elts and isinstance(body[1], ast.For) \
+            and isinstance(body[2], ast.Return) and isinstance(body[2].value, ast.Name) and [ast.unparse(t) for t in body[0].targets] == [body[2].value.id] and not body[1].orelse:
+        L = body[2].value.id
+        inner = [x for x in body[1].body if not (isinstance(x, ast.Expr) and isinstance(x.value, ast.Constant))]
+        ifs = []
+        while len(inner) == 1 and isinstance(inner[0], ast.If) and not inner[0].orelse:
+            ifs.append(inner[0].test)
+            inner = inner[0].body
+        if len(inner) == 1 and isinstance(inner[0], ast.Expr) and isinstance(inner[0].value, ast.Call) and ast.unparse(inner[0].value.func) == f'{L}.append' and len(inner[0].value.args) == 1:
+            return {'elt': inner[0].value.args[0], 'target': body[1].target, 'iter': body[1].iter, 'ifs': ifs}
+    return None
